@@ -17,7 +17,7 @@ REAL generator by this property's correspondence run (combined vs sequential, fa
 family), and is not proved: partial.
 -/
 namespace Nri.Props.C03
-open Nri Nri.Api Nri.Result Nri.Ledger Nri.Overlay
+open Nri Nri.NApi Nri.Result Nri.Ledger Nri.Overlay
 
 def adjOf : Plugin × Option Response → Option Adjustment
   | (_, some r) => r.adjust
